@@ -44,6 +44,10 @@ void vf_ainject_arm(void (*fn)(void), int k);
 int vf_ainject_pending(void);
 void vf_ainject_disarm(void);
 int vf_ainject_events(void);
+// another thread acts while this one sits in a timed condition-variable wait (one-shot; a notification makes the wait return without time-out)
+void vf_cwait_arm(void (*fn)(void));
+int vf_cwait_pending(void);
+void vf_cwait_disarm(void);
 // another thread acts while this one is blocked: a blocking atomic wait that would never end first runs fn() once (natively: a helper thread runs it 30 ms later)
 void vf_wait_arm(void (*fn)(void));
 void vf_wait_done(void);
